@@ -195,20 +195,22 @@ CHECKS["C08"] = dict(
     technique="TLA+ reference construction (ISO 16022 Table 7, RS parity, Annex F placement, finder) + TLC trace validation of writer / ECC / placement / tables")
 CHECKS["C02"] = dict(
     category="model_checking",
-    text="Every recorded EncodeHighLevel call is judged by TLC through the ISO/IEC 16022 reference DECODER of spec/DMHL.tla (ASCII, C40, Text, "
-         "X12, EDIFACT bit cursor, Base 256 with 255-state un-randomising, upper shift, macro 05/06, 253-state pads): whatever encodation the "
-         "library chose, its codewords must decode to exactly the text, padding must follow the rule, the symbol must be the smallest "
-         "admissible one for the codewords used, the call must return (recover + watchdog), and a refusal is accepted only if the text is not "
-         "Latin-1 or not even its plain ASCII encodation fits the largest admissible symbol. The real codeword decoder and the writer -> "
-         "pure-barcode reader path must return the text too. Inputs: ALL strings up to length 3 (thorough 5) over 11 character classes, all "
-         "strings up to length 6 (8) over four 4-5 class families aimed at the end-of-data logic of each mode, capacity fillers for all 30 sizes, "
-         "seeded long texts with shape / size hints, macro envelopes, non-Latin-1 texts. MC_DM proves the symbol table laws used by the judgement.",
-    design_ref="DESIGN.md section 6 C02",
-    note="Trusted: TLC; the reference decoder in DMHL.tla and DMTables.tla; Go's string conversion for the UTF-8 form of a Latin-1 text. 'Fits' is the "
-         "sufficient condition 'plain ASCII encodation fits'. A final unlatch codeword in the last position is tolerated as readers do. The encoder "
-         "state machine itself is not yet model-checked (planned: DESIGN.md C02 MC); termination is observed per call. Known finding "
-         "C02-x12-illegal-character-mid-triplet is open.",
-    technique="TLA+ reference decoder (ISO 16022 5.2) + symbol-selection spec; TLC trace validation of exhaustive class-string and seeded encode/decode/read calls")
+    text="spec/DMEnc.tla is the high-level encoder as a state machine shaped like the code (dispatch loop, one action per loop iteration of "
+         "each mode encoder, end-of-data handlers incl. the C40 backtracking, symbol-size feedback, look-ahead in exact twelfths with the float "
+         "rounding slack). TLC explores ALL messages up to length 4 (thorough 5) over 11 character classes, up to 6 (9) over four family "
+         "alphabets, small-symbol size hints and random long walks: every behaviour terminates within the step bound (no mode oscillation), "
+         "never panics, and every finished encodation decodes - by the ISO/IEC 16022 reference decoder of spec/DMHL.tla - to the message; "
+         "terminal states contradicting that are replayed on the real encoder before they count, and the model's outcome is compared with the "
+         "real encoder's for every enumerated message (equal for all 177 155 messages <= 5). Independently of the model, every recorded "
+         "EncodeHighLevel call (all class strings <= 3 (5), families <= 6 (8), capacity fillers of all 30 sizes, seeded long texts with hints, "
+         "macros, non-Latin-1) is judged by TLC through the reference decoder: codewords decode to the text, padding rule, smallest admissible "
+         "symbol, return within the watchdog, refusal only if not even plain ASCII fits; the real decoder and writer -> reader path must agree.",
+    design_ref="DESIGN.md section 6 C02, section 12.3",
+    note="Trusted: TLC; the reference decoder (DMHL.tla) and Table 7 (DMTables.tla); Go's string conversion for the UTF-8 form of a Latin-1 text. "
+         "'Fits' is the sufficient condition 'plain ASCII encodation fits'. A final unlatch codeword in the last position is tolerated as readers do. "
+         "The encoder model over-approximates float rounding in the look-ahead (set of results); model/code disagreement is reported in the evidence, "
+         "not as a violation. Known finding C02-x12-illegal-character-mid-triplet is open.",
+    technique="TLA+ encoder state machine model-checked by TLC (termination, no panic, round trip through a TLA+ reference decoder) + TLC trace validation of exhaustive class-string and seeded encode/decode/read calls")
 CHECKS["C18"] = dict(
     category="model_checking",
     text="spec/Conc.tla models the library's shared state at the grain of its own reads and writes (package tables written only during "
